@@ -3,7 +3,7 @@ CONSTANTS
   Refs = {1, 2}
   Pushers = {1}
   Inits <- Inits012
-  Pushes <- WireMC
+  PushIn <- WireMC
   CheckCas = TRUE
   CheckObj = TRUE
   AtomicMode = "txn"
